@@ -49,7 +49,13 @@ pub struct Scenario {
 	pub replace_action_at: u8,
 	/// change the throttle to this value this many ms after the start
 	pub throttle_change: Option<(u16, u32)>,
+	/// the filter raises an error whenever it is asked about an event without tags (it need not be asked:
+	/// such events by-pass the filter; but an error it raises must reach the error handler)
+	#[serde(default)]
+	pub empty_errs: bool,
 }
+
+pub const EMPTY_ERR_ID: u32 = 0xEEEE_EEEE;
 
 pub fn prio(p: u8) -> Priority {
 	match p % 4 {
@@ -94,11 +100,16 @@ struct TableFilter {
 	/// (id, µs since t0) of every call
 	asked_at: Arc<Mutex<Vec<(u32, u64)>>>,
 	t0: Instant,
+	empty_errs: bool,
+	empty_calls: Arc<AtomicUsize>,
 }
 
 impl Filterer for TableFilter {
 	fn check_event(&self, event: &Event, _priority: Priority) -> Result<bool, RuntimeError> {
-		let Some(id) = id_of(event) else { return Ok(true) };
+		let Some(id) = id_of(event) else {
+			self.empty_calls.fetch_add(1, Ordering::SeqCst);
+			return if self.empty_errs { Err(RuntimeError::External(Box::new(IdError(EMPTY_ERR_ID)))) } else { Ok(true) };
+		};
 		self.asked.lock().unwrap().push(id);
 		self.asked_at.lock().unwrap().push((id, us(self.t0)));
 		match self.verdicts.get(&id).copied().unwrap_or(0) {
@@ -149,6 +160,8 @@ pub struct Run {
 	pub batches: Vec<Batch>,
 	pub asked: Vec<u32>,
 	pub asked_at: Vec<(u32, u64)>,
+	/// how often the filter was asked about an event without tags
+	pub empty_filter_calls: usize,
 	pub errors: Vec<ErrSeen>,
 	/// "ok", "elevated:<id>", "external", "other:<text>", "hang"
 	pub main_result: String,
@@ -238,7 +251,8 @@ pub fn run_with(sc: &Scenario, install: Option<&dyn Fn()>, side: Option<&Side>, 
 		config.error_channel_size = sc.err_chan.max(1) as usize;
 		config.throttle(Duration::from_millis(u64::from(sc.throttle)));
 		let asked_at = Arc::new(Mutex::new(Vec::new()));
-		config.filterer(TableFilter { verdicts, asked: asked.clone(), asked_at: asked_at.clone(), t0 });
+		let empty_calls = Arc::new(AtomicUsize::new(0));
+		config.filterer(TableFilter { verdicts, asked: asked.clone(), asked_at: asked_at.clone(), t0, empty_errs: sc.empty_errs, empty_calls: empty_calls.clone() });
 		let config_slot: Arc<Mutex<Option<Arc<Config>>>> = Arc::new(Mutex::new(None));
 
 		// ---- action handler (generation g); may replace itself from inside
@@ -343,6 +357,7 @@ pub fn run_with(sc: &Scenario, install: Option<&dyn Fn()>, side: Option<&Side>, 
 					batches: vec![],
 					asked: vec![],
 					asked_at: vec![],
+					empty_filter_calls: 0,
 					errors: vec![],
 					main_result: format!("other:with_config failed: {e}"),
 					quit_sent_us: 0,
@@ -406,7 +421,8 @@ pub fn run_with(sc: &Scenario, install: Option<&dyn Fn()>, side: Option<&Side>, 
 		// (a slow handler with throttle 0 gets one event per invocation: allow one handler duration per event sent)
 		let n_events: u64 = sc.producers.iter().map(|p| p.len() as u64).sum();
 		let deadline = Instant::now()
-			+ Duration::from_millis(1500 + 3 * u64::from(sc.throttle.max(sc.throttle_change.map_or(0, |c| c.1))) + u64::from(sc.handler_ms) * (n_events + 2));
+			+ Duration::from_millis(1500 + 3 * u64::from(sc.throttle.max(sc.throttle_change.map_or(0, |c| c.1))) + u64::from(sc.handler_ms) * (n_events + 2)
+				+ if sc.err_kind % 5 == 1 { 25 * n_events } else { 0 });
 		let mut quiesced = false;
 		let mut main = main;
 		let mut main_early: Option<String> = None;
@@ -457,6 +473,7 @@ pub fn run_with(sc: &Scenario, install: Option<&dyn Fn()>, side: Option<&Side>, 
 			batches,
 			asked,
 			asked_at: asked_at_v,
+			empty_filter_calls: empty_calls.load(Ordering::SeqCst),
 			errors,
 			main_result,
 			quit_sent_us,
